@@ -283,7 +283,7 @@ end SrvLines
       fapp <assigned prio> <manifest prio|~> <lease|~> <retention|~>   -> <prio> <lease|E> <retention|-|E>
       fbkt <name> <level|~>                                            -> <level>
       fsrv <partition|~>                                               -> <label>
-      frld <cur m,c,d,label,traits,parent|~> <record same|~>             -> loadNew|removed|same|replaced
+      frld <cur m,c,d,label,traits,parent|~> <record same|~> <hadApps> <parentOk>  -> <decision> restore=<0|1> adjust=<0|1>
       fidg <existing ids csv> <stored id:(e|n|<count>) csv>            -> rm=<csv> cfg=<id:count csv> -/
 namespace DecodeLines
 open TmVerif.LoaderDecode TmVerif.Units
@@ -306,14 +306,17 @@ def line (ws : List String) : Option String :=
     pure s!"{p} {l} {r}"
   | ["fbkt", name, lvl] => do pure (eStr (bucketLevel (← dStr name) (← dOpt lvl)))
   | ["fsrv", part] => do pure (eStr (serverLabel (← dOpt part)))
-  | ["frld", cur, rec] => do
+  | ["frld", cur, rec, hadApps, parentOk] => do
     let pA : String → Option (Option SrvAttrs) := fun t =>
       if t = "~" then some none else
       match (t.splitOn ",").mapM String.toInt? with
       | some [m, c, d, l, tr, p] => some (some { cap := (m, c, d), label := l.toNat, traits := tr.toNat, parent := p.toNat })
       | _ => none
-    pure (match reloadDecision (← pA cur) (← pA rec) with
-      | .loadNew => "loadNew" | .removed => "removed" | .same => "same" | .replaced => "replaced")
+    let c ← pA cur
+    let r ← pA rec
+    let dec := match reloadDecision c r with
+      | .loadNew => "loadNew" | .removed => "removed" | .same => "same" | .replaced => "replaced"
+    pure s!"{dec} restore={showBool (reloadRestores c r (← bool? hadApps))} adjust={showBool (reloadAdjusts c r (← bool? parentOk))}"
   | ["fidg", existing, stored] => do
     let st ← (csv stored).mapM (fun t => match t.splitOn ":" with
       | [g, d] => do
